@@ -1101,13 +1101,15 @@ impl RScenario {
             n = rng.range(3, 64);
         }
         // rarely: a long sequence, so that merged chunks pass 2^16 elements
-        let long = matches!(self.prop, RProp::C02 | RProp::C09 | RProp::C08) && rng.below(12000) == 0;
+        let long = matches!(self.prop, RProp::C02 | RProp::C09 | RProp::C08) && rng.below(8000) == 0;
         if long {
-            n = match tier {
-                Tier::Quick => rng.range(140_000, 300_000),
-                Tier::Thorough => rng.range(140_000, 1_000_000),
+            // log-uniform over 10^4 .. 3*10^5 (10^6 in thorough)
+            let hi: f64 = match tier {
+                Tier::Quick => 300_000.0,
+                Tier::Thorough => 1_000_000.0,
             };
-            st.bump("probe.long_input_ge_140k");
+            n = (10_000.0 * (hi / 10_000.0).powf(rng.f())) as usize;
+            st.bump("probe.long_input_ge_10k");
         }
         let (data, pair, meta): (Vec<(u64, u64)>, bool, String) = match self.prop {
             RProp::C02 | RProp::C11Scalar | RProp::C20Scalar | RProp::C18Scalar => {
